@@ -555,6 +555,219 @@ def run(ctx):
     queue("unit_vector", "nat * list Z * list (list Q)", "fun c => let '(n, ones, P0) := c in Qss_eqb (unit_vector_payoff0 n ones) P0",
           cases, meta, "C18.Model.unit_vector_payoff0 vs bimatrix_generators.unit_vector_game", 20)
 
+    # ================================================================ degenerate sizes + exact draw accounting
+    # Every generator is run on a passed RandomState and a passed Generator; a reference stream with the same seed
+    # consumes the documented draws, a pure-Python reference computes the value from them, and the NEXT draw of both
+    # streams must coincide (the generator advanced the stream by exactly the documented amount).
+    def ref_probvec(U):
+        U = np.asarray(U, dtype=float)
+        out = np.empty((U.shape[0], U.shape[1] + 1))
+        for i, row in enumerate(U):
+            r = sorted(row.tolist())
+            out[i] = [r[0]] + [r[t] - r[t - 1] for t in range(1, len(r))] + [1 - r[-1]]
+        return out
+
+    def ref_swr_row(n, r):
+        pool = list(range(n))
+        out = []
+        for j, u in enumerate(r):
+            idx = int(math.floor(float(u) * (n - j)))
+            out.append(pool[idx])
+            pool[idx] = pool[n - j - 1]
+        return out
+
+    def ref_rsm(ref, m, n, k):
+        kk = n if k is None else k
+        pv = np.ones((m, 1)) if kk == 1 else ref_probvec(ref.random(size=(m, kk - 1)))
+        if kk == n:
+            return pv
+        U = ref.random(size=(m, kk))
+        P = np.zeros((m, n))
+        for i in range(m):
+            for c, v in zip(ref_swr_row(n, U[i]), pv[i]):
+                P[i, c] = v
+        return P
+
+    def both_streams(seed):
+        yield "RandomState", np.random.RandomState(seed), np.random.RandomState(seed)
+        yield "Generator", np.random.default_rng(seed), np.random.default_rng(seed)
+
+    def degenerate_case(name, args, call, reference, expect_error=False, dtype=None):
+        """call(rs) -> array-like (or tuple of arrays); reference(ref) -> expected value from the documented draws"""
+        for kind, rs, ref in both_streams(rng.randrange(10**6)):
+            inp = {"call": name, "args": args, "stream": kind}
+            ctx.case(("degenerate", name, json.dumps(jsonable(args), sort_keys=True), kind), nontrivial=True)
+            ctx.count("degenerate:%s" % name)
+            try:
+                got = call(rs)
+            except ValueError as e:
+                if expect_error:
+                    ctx.count("degenerate:rejected")
+                else:
+                    ctx.fail("degenerate_size", "%s%r raises ValueError (%s) for an admissible size" % (name, args, e), inp)
+                continue
+            except Exception as e:
+                ctx.fail("degenerate_size", "%s%r raises %r" % (name, args, e), inp)
+                continue
+            if expect_error:
+                ctx.fail("degenerate_size", "%s%r is accepted; the unchanged code rejects it with ValueError" % (name, args), inp)
+                continue
+            exp = reference(ref)
+            gl = list(got) if isinstance(got, tuple) else [got]
+            el = list(exp) if isinstance(exp, tuple) else [exp]
+            same = len(gl) == len(el)
+            for g_, e_ in zip(gl, el):
+                g_, e_ = np.asarray(g_), np.asarray(e_)
+                same = same and g_.shape == e_.shape and np.array_equal(g_, e_)
+                if dtype is not None:
+                    same = same and g_.dtype == dtype
+            if not same:
+                ctx.fail("degenerate_size", "%s%r: shape/dtype/value differ from the reference computed on the same stream" % (name, args), inp,
+                         [np.asarray(g_).tolist() for g_ in gl][:3], [np.asarray(e_).tolist() for e_ in el][:3])
+            elif rs.random() != ref.random():
+                ctx.fail("stream_advance", "%s%r does not advance the passed %s by the documented number of draws" % (name, args, kind), inp)
+    # --- sample_without_replacement: num_trials in {None, 0, 1, m}, k in {0, 1, n}, n = 1
+    for n in (1, 2, 5, 12):
+        for k in sorted({0, 1, n, max(0, n - 1)}):
+            for nt in (None, 0, 1, 3):
+                size = (k,) if nt is None else (nt, k)
+                degenerate_case("sample_without_replacement", {"n": n, "k": k, "num_trials": nt},
+                                lambda rs, n=n, k=k, nt=nt: sample_without_replacement(n, k, num_trials=nt, random_state=rs),
+                                lambda ref, n=n, size=size: (lambda U: np.array([ref_swr_row(n, r) for r in U.reshape(-1, size[-1])],
+                                                                                dtype=np.int64).reshape(size))(ref.random(size=size)),
+                                dtype=np.dtype(np.int64))
+    for n, k, nt in [(0, 0, None), (-2, 1, None), (3, 4, None), (3, 4, 0), (0, 0, 2)]:
+        degenerate_case("sample_without_replacement", {"n": n, "k": k, "num_trials": nt},
+                        lambda rs, n=n, k=k, nt=nt: sample_without_replacement(n, k, num_trials=nt, random_state=rs), None, expect_error=True)
+    # --- probvec: m = 0, m = 1, k = 1 (no draw), both targets
+    for m, k in [(0, 1), (0, 3), (1, 1), (3, 1), (1, 2), (2, 5), (1, 12)]:
+        for parallel in (True, False):
+            degenerate_case("probvec", {"m": m, "k": k, "parallel": parallel},
+                            lambda rs, m=m, k=k, parallel=parallel: probvec(m, k, random_state=rs, parallel=parallel),
+                            lambda ref, m=m, k=k: np.ones((m, 1)) if k == 1 else ref_probvec(ref.random(size=(m, k - 1))),
+                            dtype=np.dtype(np.float64))
+    degenerate_case("probvec", {"m": 2, "k": 0}, lambda rs: probvec(2, 0, random_state=rs), None, expect_error=True)
+    # --- random_stochastic_matrix / random_markov_chain: n = 1, k in {None, 1, n, n-1}, dense and sparse
+    for n in (1, 2, 3, 7):
+        for k in sorted({1, n, max(1, n - 1)}) + [None]:
+            for sparse in (False, True):
+                for nm, fn in (("random_stochastic_matrix", lambda rs, n=n, k=k, sparse=sparse: random_stochastic_matrix(n, k, sparse=sparse, random_state=rs)),
+                               ("random_markov_chain", lambda rs, n=n, k=k, sparse=sparse: random_markov_chain(n, k, sparse=sparse, random_state=rs).P)):
+                    degenerate_case(nm, {"n": n, "k": k, "sparse": sparse},
+                                    lambda rs, fn=fn, sparse=sparse: (lambda P: P.toarray() if sparse else np.asarray(P))(fn(rs)),
+                                    lambda ref, n=n, k=k: ref_rsm(ref, n, n, k), dtype=np.dtype(np.float64))
+    for n, k in [(3, 4), (3, 0), (0, None)]:
+        degenerate_case("random_stochastic_matrix", {"n": n, "k": k}, lambda rs, n=n, k=k: random_stochastic_matrix(n, k, random_state=rs), None, expect_error=True)
+    # --- random_discrete_dp: one state / one action / k = 1 / beta given (no beta draw)
+    for ns, na, k, beta in [(1, 1, None, None), (1, 3, None, None), (3, 1, 1, None), (2, 2, 1, 0.5), (3, 2, 2, None)]:
+        def ref_ddp(ref, ns=ns, na=na, k=k, beta=beta):
+            R = ref.standard_normal(ns * na)
+            Qm = ref_rsm(ref, ns * na, ns, k)
+            b = ref.random() if beta is None else beta
+            return (R.reshape(ns, na), Qm.reshape(ns, na, ns), np.array(b))
+        degenerate_case("random_discrete_dp", {"num_states": ns, "num_actions": na, "k": k, "beta": beta},
+                        lambda rs, ns=ns, na=na, k=k, beta=beta: (lambda d: (d.R, d.Q, np.array(d.beta)))(random_discrete_dp(ns, na, beta=beta, k=k, random_state=rs)),
+                        ref_ddp)
+    # --- random_tournament_graph: n = 0, 1, 2
+    for n in (0, 1, 2, 4):
+        def ref_tg(ref, n=n):
+            r = ref.random(n * (n - 1) // 2)
+            A = np.zeros((n, n), dtype=bool)
+            t = 0
+            for i in range(n):
+                for j in range(i + 1, n):
+                    if r[t] < 0.5:
+                        A[i, j] = True
+                    else:
+                        A[j, i] = True
+                    t += 1
+            return A
+        degenerate_case("random_tournament_graph", {"n": n}, lambda rs, n=n: random_tournament_graph(n, random_state=rs).csgraph.toarray(), ref_tg)
+    # --- games: one player, one action
+    for nums in [(1,), (2,), (1, 1), (1, 3), (3, 1), (2, 1, 2), (1, 1, 1)]:
+        N = len(nums)
+        degenerate_case("random_game", {"nums_actions": list(nums)},
+                        lambda rs, nums=nums: tuple(p.payoff_array for p in random_game(nums, random_state=rs).players),
+                        lambda ref, nums=nums: tuple(ref.random(nums[i:] + nums[:i]) for i in range(len(nums))), dtype=np.dtype(np.float64))
+        degenerate_case("random_pure_actions", {"nums_actions": list(nums)},
+                        lambda rs, nums=nums: np.array(random_pure_actions(nums, random_state=rs), dtype=np.int64),
+                        lambda ref, nums=nums: np.array([rng_integers(ref, n_) for n_ in nums], dtype=np.int64))
+        degenerate_case("random_mixed_actions", {"nums_actions": list(nums)},
+                        lambda rs, nums=nums: random_mixed_actions(nums, random_state=rs),
+                        lambda ref, nums=nums: tuple(np.ones(1) if n_ == 1 else ref_probvec(ref.random(size=n_ - 1).reshape(1, -1))[0] for n_ in nums),
+                        dtype=np.dtype(np.float64))
+        if N >= 2:
+            rho = rng.choice([0.0, 0.4, -1.0 / (N - 1) / 2])
+
+            def ref_cov(ref, nums=nums, rho=rho, N=N):
+                cov = np.full((N, N), rho)
+                cov[range(N), range(N)] = 1
+                return ref.multivariate_normal(np.zeros(N), cov, nums)
+            degenerate_case("covariance_game", {"nums_actions": list(nums), "rho": rho},
+                            lambda rs, nums=nums, rho=rho: covariance_game(nums, rho, random_state=rs).payoff_profile_array, ref_cov)
+            degenerate_case("random_polymatrix_game", {"nums_actions": list(nums)},
+                            lambda rs, nums=nums: tuple(np.asarray(v) for _, v in sorted(random_polymatrix_game(nums, random_state=rs).polymatrix.items())),
+                            lambda ref, nums=nums, N=N: tuple(ref.random((nums[i], nums[j])) for i in range(N) for j in range(N) if i != j))
+        else:
+            degenerate_case("covariance_game", {"nums_actions": list(nums)}, lambda rs, nums=nums: covariance_game(nums, 0.0, random_state=rs), None, expect_error=True)
+    degenerate_case("random_game", {"nums_actions": []}, lambda rs: random_game((), random_state=rs), None, expect_error=True)
+    # --- bimatrix generators: smallest parameters, draw accounting
+    for h, t in [(1, 0), (1, 3), (2, 1)]:
+        def ref_blotto(ref, h=h, t=t):
+            vals = ref.multivariate_normal(np.array([0.0, 0.0]), np.array([[1, 0.5], [0.5, 1]]), h)
+            acts = simplex_grid(h, t)
+            n_ = acts.shape[0]
+            pa = tuple(np.zeros((n_, n_)) for _ in range(2))
+            for i in range(n_):
+                for j in range(n_):
+                    for kk in range(h):
+                        if acts[i, kk] > acts[j, kk]:
+                            pa[0][i, j] += vals[kk, 0]
+                        elif acts[i, kk] < acts[j, kk]:
+                            pa[1][j, i] += vals[kk, 1]
+                        else:
+                            pa[0][i, j] += vals[kk, 0] / 2
+                            pa[1][j, i] += vals[kk, 1] / 2
+            return pa
+        degenerate_case("blotto_game", {"h": h, "t": t}, lambda rs, h=h, t=t: tuple(p.payoff_array for p in blotto_game(h, t, 0.5, random_state=rs).players), ref_blotto)
+    for n in (1, 2, 3):
+        def ref_rank(ref, n=n, steps=4):
+            sc = rng_integers(ref, 1, steps + 1, size=(2, n)).cumsum(axis=1)
+            cs = rng_integers(ref, 1, steps + 1, size=(2, n - 1)).cumsum(axis=1) / (n * steps)
+            pa = tuple(np.zeros((n, n)) for _ in range(2))
+            for i in range(n):
+                for j in range(n):
+                    w0 = 1.0 if sc[0, i] > sc[1, j] else 0.5 if sc[0, i] == sc[1, j] else 0.0
+                    pa[0][i, j] = -(cs[0, i - 1] if i else 0.0) + w0
+                    pa[1][j, i] = -(cs[1, j - 1] if j else 0.0) + (1.0 - w0)
+            return pa
+        degenerate_case("ranking_game", {"n": n, "steps": 4}, lambda rs, n=n: tuple(p.payoff_array for p in ranking_game(n, 4, random_state=rs).players), ref_rank)
+
+        def ref_uv(ref, n=n):
+            B = ref.random((n, n))
+            ones = np.atleast_1d(rng_integers(ref, n, size=n))
+            A = np.zeros((n, n))
+            A[ones, np.arange(n)] = 1
+            return (A, B)
+        degenerate_case("unit_vector_game", {"n": n}, lambda rs, n=n: tuple(p.payoff_array for p in unit_vector_game(n, random_state=rs).players), ref_uv)
+    for n, k in [(1, 1), (2, 1), (2, 2), (3, 3), (4, 2)]:
+        def ref_tgame(ref, n=n, k=k):
+            r = ref.random(n * (n - 1) // 2)
+            A = np.zeros((n, n), dtype=int)
+            t = 0
+            for i in range(n):
+                for j in range(i + 1, n):
+                    if r[t] < 0.5:
+                        A[i, j] = 1
+                    else:
+                        A[j, i] = 1
+                    t += 1
+            subsets = sorted(itertools.combinations(range(n), k), key=lambda s_: s_[::-1])
+            m = len(subsets)
+            return (np.array([[1.0 if all(A[i, v] for v in S) else 0.0 for S in subsets] for i in range(n)]).reshape(n, m),
+                    np.array([[1.0 if v in S else 0.0 for v in range(n)] for S in subsets]).reshape(m, n))
+        degenerate_case("tournament_game", {"n": n, "k": k}, lambda rs, n=n, k=k: tuple(p.payoff_array for p in tournament_game(n, k, random_state=rs).players), ref_tgame)
+
     # ================================================================ shapes, seeds, advancement of a passed generator
     gens = {
         "probvec": lambda rs: probvec(3, 4, random_state=rs),
